@@ -142,12 +142,287 @@ Proof.
   unfold mhstep. intros H.
   repeat (match type of H with context [match ?t with _ => _ end] => destruct t eqn:?; try discriminate H end).
   all: injection H as Hs Ho; subst o; subst s'; (split; [|reflexivity]); subst.
-  - apply MD_call.
-  - match goal with |- mdec _ _ (msettle ?s3) => destruct (msettle_fold s3) as [l ->] end.
-    match goal with Hi : nth_error _ _ = Some MInFn, Ho : moutcome _ _ = Some _ |- _ => pose proof (MD_ret s _ _ _ l Hi Ho) as D end.
-    rewrite mfold_app in D. exact D.
+  all: try apply MD_call.
   - match goal with |- mdec _ _ (msettle ?s3) => destruct (msettle_fold s3) as [l ->] end.
     match goal with Hb : (_ && _)%bool = true |- _ => apply andb_true_iff in Hb as [Hb _]; pose proof (MD_many s _ _ l Hb) as D end.
     rewrite !mfold_app in D. rewrite calls_fold, swaps_fold. exact D.
+  - match goal with |- mdec _ _ (msettle ?s3) => destruct (msettle_fold s3) as [l ->] end.
+    match goal with Hi : nth_error _ _ = Some MInFn, Ho : moutcome _ _ = Some _ |- _ => pose proof (MD_ret s _ _ _ l Hi Ho) as D end.
+    rewrite mfold_app in D. exact D.
 Qed.
 Transparent mstep.
+
+(* ------------------------------------------------------------------ what one harness step does to the model *)
+Lemma swap_start s a : nth_error (mcs s) a = Some MStart ->
+  started (mstep s (MSwap a)) = true /\ (started s = false -> nth_error (mcs (mstep s (MSwap a))) a = Some MInFn).
+Proof.
+  intros G. cbn [mstep]. rewrite G. destruct (started s); cbn [started mcs]; (split; [reflexivity|]); [discriminate|].
+  intros _. unfold mset. apply nth_error_set_nth_same. eapply nth_error_nth_len; eauto.
+Qed.
+
+Lemma in_map_inv {A B} (f : A -> B) l b : In b (map f l) -> exists a, b = f a.
+Proof. intros H. apply in_map_iff in H as (a & <- & _). eauto. Qed.
+
+Definition MFacts (s : mst) (e : list N) (s' : mst) : Prop :=
+  MInv s' /\ started s' = true /\
+  (started s = true -> forall j, nth_error (mcs s') j = Some MInFn -> nth_error (mcs s) j = Some MInFn) /\
+  (started s = false -> exists j, nth_error (mcs s') j = Some MInFn) /\
+  (forall f o, nth_error (mcs s) f = Some (MRetF o) -> nth_error (mcs s') f = Some (MRetF o)) /\
+  (forall i k, e = [2; i; k]%N -> exists o, moutcome i k = Some o /\ nth_error (mcs s') (N.to_nat i) = Some (MRetF o)) /\
+  ((forall i k, e <> [2; i; k]%N) -> (forall f o, nth_error (mcs s) f <> Some (MRetF o)) ->
+   forall f o, nth_error (mcs s') f <> Some (MRetF o)).
+
+Lemma mdec_facts s e s' : mdec s e s' -> MInv s -> MFacts s e s'.
+Proof.
+  intros D HI. unfold MFacts. destruct D as [|i k o l Gi Ho|n w l Hw].
+  - set (a := length (mcs s)).
+    assert (G1 : nth_error (mcs (mstep s MCall)) a = Some MStart) by (cbn [mstep mcs]; apply nth_error_app_last).
+    destruct (swap_start _ _ G1) as [Hst Hin].
+    change (mfold [MCall; MSwap a; MWake a] s) with (mfold [MWake a] (mstep (mstep s MCall) (MSwap a))).
+    refine (conj _ (conj _ (conj _ (conj _ (conj _ (conj _ _)))))).
+    + apply mfold_inv. now repeat apply mstep_inv.
+    + now apply mfold_started.
+    + intros Hs j Hj. change (mfold [MWake a] (mstep (mstep s MCall) (MSwap a))) with (mfold [MCall; MSwap a; MWake a] s) in Hj.
+      exact (mfold_infn_back _ _ _ Hs Hj).
+    + intros Hs. exists a. apply mfold_infn_fwd; [|apply Hin; exact Hs]. intros o [H|[]]. discriminate.
+    + intros f o G. change (mfold [MWake a] (mstep (mstep s MCall) (MSwap a))) with (mfold [MCall; MSwap a; MWake a] s). now apply mfold_retf.
+    + intros i k H. discriminate.
+    + intros _ Hn. change (mfold [MWake a] (mstep (mstep s MCall) (MSwap a))) with (mfold [MCall; MSwap a; MWake a] s).
+      apply mfold_no_retf; [|exact Hn]. intros a0 [H|[H|[H|[]]]]; discriminate.
+  - set (a := N.to_nat i) in *. pose proof HI as HI0. minv_names HI0. pose proof (M1 _ _ Gi eq_refl) as Hs.
+    assert (Hl : a < length (mcs s)) by (eapply nth_error_nth_len; eauto).
+    assert (G3 : nth_error (mcs (mfold [MFnReturn a o; MWriteRes a; MClose a] s)) a = Some (MRetF o)).
+    { cbn [mfold fold_left]. cbn [mstep]. rewrite Gi. cbn [mcs]. unfold mset. rewrite nth_error_set_nth_same by exact Hl.
+      cbn [mcs]. rewrite nth_error_set_nth_same by (rewrite length_set_nth; exact Hl).
+      cbn [mcs]. apply nth_error_set_nth_same. rewrite !length_set_nth. exact Hl. }
+    refine (conj _ (conj _ (conj _ (conj _ (conj _ (conj _ _)))))).
+    + now apply mfold_inv.
+    + now apply mfold_started.
+    + intros _ j Hj. exact (mfold_infn_back _ _ _ Hs Hj).
+    + congruence.
+    + intros f o0 G. now apply mfold_retf.
+    + intros i0 k0 H. inversion H; subst i0 k0. exists o. split; [exact Ho|]. rewrite mfold_app. now apply mfold_retf.
+    + intros Hn. exfalso. eapply Hn; reflexivity.
+  - set (b := length (mcs s)) in *. set (k := N.to_nat n) in *. apply N.ltb_lt in Hw.
+    destruct (calls_mcs k s) as [Hc Hcs].
+    assert (G1 : nth_error (mcs (mfold (repeat MCall k) s)) (b + N.to_nat w) = Some MStart).
+    { rewrite Hc, nth_error_app2 by (unfold b; lia). replace (b + N.to_nat w - length (mcs s)) with (N.to_nat w) by (unfold b; lia).
+      apply nth_error_repeat. unfold k. lia. }
+    destruct (swap_start _ _ G1) as [Hst Hin].
+    refine (conj _ (conj _ (conj _ (conj _ (conj _ (conj _ _)))))).
+    + now apply mfold_inv.
+    + rewrite mfold_app. change (mfold ([MSwap (b + N.to_nat w)] ++ ?t) ?s0) with (mfold t (mstep s0 (MSwap (b + N.to_nat w)))).
+      now apply mfold_started.
+    + intros Hs j Hj. exact (mfold_infn_back _ _ _ Hs Hj).
+    + intros Hs. exists (b + N.to_nat w). rewrite mfold_app.
+      change (mfold ([MSwap (b + N.to_nat w)] ++ ?t) ?s0) with (mfold t (mstep s0 (MSwap (b + N.to_nat w)))).
+      apply mfold_infn_fwd; [|apply Hin; congruence].
+      intros o H. apply in_app_or in H as [H|H]; apply in_map_inv in H as [x Hx]; discriminate.
+    + intros f o G. now apply mfold_retf.
+    + intros i k0 H. discriminate.
+    + intros _ Hn. apply mfold_no_retf; [|exact Hn]. intros a0 H.
+      apply in_app_or in H as [H|H]; [apply repeat_spec in H; discriminate|].
+      apply in_app_or in H as [H|H]; [destruct H as [H|[]]; discriminate|].
+      apply in_app_or in H as [H|H]; apply in_map_inv in H as [x Hx]; discriminate.
+Qed.
+
+(* ------------------------------------------------------------------ mon_memo, with its parts named *)
+Definition mcodep (p : mpc) : N * N :=
+  match p with
+  | MStart => (1, 0) | MInFn => (6, 0) | MGot _ | MWrote _ => (7, 0) | MWait => (2, 0)
+  | MRetF o | MRet o => rcode o
+  end%N.
+Definition mc1 (p : mpc) : N := fst (mcodep p).
+
+Lemma mcode_mcodep p : mcode p = [fst (mcodep p); snd (mcodep p)].
+Proof. destruct p as [| |o|o|o| |o]; try reflexivity; destruct o; reflexivity. Qed.
+
+Lemma pairs_mobs s : pairs (mobs s) = map mcodep (mcs s).
+Proof.
+  unfold mobs. induction (mcs s) as [|x l IH]; [reflexivity|].
+  cbn [flat_map map]. rewrite mcode_mcodep. cbn [app pairs]. rewrite IH. now destruct (mcodep x).
+Qed.
+
+Definition mm_entered (prev : list N) (returning : option nat) (jc : nat * N) : bool :=
+  N.eqb (snd jc) 6 &&
+  (negb (N.eqb (nth (fst jc) prev 0%N) 6) || match returning with Some a => Nat.eqb a (fst jc) | None => false end).
+Definition mm_returning (e : list N) : option nat := match e with [2; i; _] => Some (N.to_nat i) | _ => None end%N.
+Definition mm_ret1 (m : mmon) (e : list N) : option (N * N) :=
+  match e with
+  | [2; i; k] => match mm_ret m with
+                 | Some x => Some x
+                 | None => Some (if N.eqb k 0 then 3 else 5, i + 1)
+                 end
+  | _ => mm_ret m
+  end%N.
+Definition mm_bad (ret1 : option (N * N)) (p : N * N) : bool :=
+  match ret1 with
+  | Some (c, v) => negb (N.eqb c (fst p) && N.eqb v (snd p))
+  | None => true
+  end.
+
+Lemma mon_memo_eq m e o :
+  mon_memo m e o =
+  let ps := pairs o in
+  let codes := map fst ps in
+  let entries := mm_entries m + length (filter (mm_entered (mm_prev m) (mm_returning e)) (combine (seq 0 (length codes)) codes)) in
+  let ret1 := mm_ret1 m e in
+  let returned := filter (fun p : N * N => is_ret_code (fst p)) ps in
+  ({| mm_prev := codes; mm_entries := entries; mm_ret := ret1 |},
+   (if Nat.ltb 1 entries || (Nat.ltb 0 (length returned) && Nat.eqb entries 0) then [(16, 6)] else []) ++
+   (if existsb (mm_bad ret1) returned then [(16, 7)] else []) ++
+   (if existsb (fun p : N * N => N.eqb (fst p) 11) ps then [(16, 8)] else [])).
+Proof. reflexivity. Qed.
+
+(* ------------------------------------------------------------------ the simulation relation *)
+Definition retrel (ret : option (N * N)) (s : mst) : Prop :=
+  match ret with
+  | Some cv => exists f o, nth_error (mcs s) f = Some (MRetF o) /\ rcode o = cv
+  | None => forall f o, nth_error (mcs s) f <> Some (MRetF o)
+  end.
+
+Definition RM (m : mmon) (s : mst) : Prop :=
+  MInv s /\ mm_prev m = map mc1 (mcs s) /\ mm_entries m = b2n (started s) /\ retrel (mm_ret m) s.
+
+Lemma mc1_infn p : mc1 p = 6%N <-> p = MInFn.
+Proof.
+  split; [|intros ->; reflexivity]. unfold mc1. destruct p as [| |o|o|o| |o]; cbn; try discriminate; auto; destruct o; discriminate.
+Qed.
+
+Lemma filter_combine_seq {A} (f : nat * A -> bool) (P : A -> bool) (l : list A) : forall b,
+  (forall j c, nth_error l j = Some c -> f (b + j, c) = P c) ->
+  length (filter f (combine (seq b (length l)) l)) = length (filter P l).
+Proof.
+  induction l as [|x l IH]; intros b H; [reflexivity|]. cbn [length seq combine filter].
+  pose proof (H 0 x eq_refl) as H0. rewrite Nat.add_0_r in H0. rewrite H0.
+  assert (IH' : length (filter f (combine (seq (S b) (length l)) l)) = length (filter P l)).
+  { apply IH. intros j c Hj. replace (S b + j) with (b + S j) by lia. now apply H. }
+  destruct (P x); cbn [length]; now rewrite IH'.
+Qed.
+
+Lemma cnt_infn_codes l : length (filter (fun c => N.eqb c 6) (map mc1 l)) = cnt m_in_fn l.
+Proof.
+  unfold cnt. induction l as [|p l IH]; [reflexivity|]. cbn [map filter].
+  assert (E : N.eqb (mc1 p) 6 = m_in_fn p).
+  { destruct (N.eqb_spec (mc1 p) 6) as [H|H].
+    - apply mc1_infn in H. now subst p.
+    - destruct p; try reflexivity. exfalso. apply H. reflexivity. }
+  rewrite E. destruct (m_in_fn p); cbn [length]; now rewrite IH.
+Qed.
+
+Lemma nth_prev s j : nth j (map mc1 (mcs s)) 0%N = 6%N -> nth_error (mcs s) j = Some MInFn.
+Proof.
+  intros H. destruct (nth_error (mcs s) j) as [p|] eqn:G.
+  - erewrite (nth_error_nth (map mc1 (mcs s)) j 0%N) in H by (apply map_nth_error; exact G). apply mc1_infn in H. now subst p.
+  - apply nth_error_None in G. rewrite nth_overflow in H by (rewrite map_length; exact G). discriminate.
+Qed.
+
+Lemma mdec_shape s e s' : mdec s e s' -> e = [1]%N \/ (exists i k, e = [2; i; k]%N) \/ (exists n w, e = [3; n; w]%N).
+Proof. intros D. destruct D; eauto 6. Qed.
+
+Lemma retf_unique s f1 o1 f2 o2 : MInv s -> nth_error (mcs s) f1 = Some (MRetF o1) -> nth_error (mcs s) f2 = Some (MRetF o2) -> o1 = o2.
+Proof.
+  intros HI H1 H2. minv_names HI. assert (f1 = f2) by (eapply M2; eauto). subst f2. congruence.
+Qed.
+
+Lemma ret1_rel m s e s' : RM m s -> mdec s e s' -> MFacts s e s' -> retrel (mm_ret1 m e) s'.
+Proof.
+  intros (HI & _ & _ & HR) D (HI' & _ & _ & _ & F5 & F6 & F7).
+  destruct (mdec_shape _ _ _ D) as [->|[(i & k & ->)|(n & w & ->)]]; cbn [mm_ret1].
+  - destruct (mm_ret m) as [cv|]; cbn [retrel] in *.
+    + destruct HR as (f & o & G & E). exists f, o. auto.
+    + apply F7; [intros; discriminate | exact HR].
+  - destruct (F6 _ _ eq_refl) as (o & Ho & Go). destruct (mm_ret m) as [cv|]; cbn [retrel] in *.
+    + destruct HR as (f & o1 & G & E). exists f, o1. auto.
+    + exists (N.to_nat i), o. split; [exact Go|]. unfold moutcome in Ho.
+      destruct (N.eqb k 0); [inversion Ho; reflexivity|]. destruct (N.eqb k 1); inversion Ho. reflexivity.
+  - destruct (mm_ret m) as [cv|]; cbn [retrel] in *.
+    + destruct HR as (f & o & G & E). exists f, o. auto.
+    + apply F7; [intros; discriminate | exact HR].
+Qed.
+
+Lemma mcodep_ret p : is_ret_code (fst (mcodep p)) = true -> exists o, (p = MRetF o \/ p = MRet o) /\ mcodep p = rcode o.
+Proof. destruct p; cbn; try discriminate; eauto. Qed.
+
+Lemma mon_step_memo m s e s' o : RM m s -> mhstep s e = Some (s', o) ->
+  exists m', mon_memo m e o = (m', []) /\ RM m' s'.
+Proof.
+  intros HRm Hst. apply mhstep_mdec in Hst as [D ->]. pose proof HRm as (HI & HP & HE & HR).
+  pose proof (mdec_facts _ _ _ D HI) as HF. pose proof (ret1_rel _ _ _ _ HRm D HF) as HR1.
+  destruct HF as (HI' & Hst' & F3 & F4 & F5 & F6 & F7).
+  rewrite mon_memo_eq. cbv zeta. rewrite pairs_mobs, map_map. change (map (fun x => fst (mcodep x)) (mcs s')) with (map mc1 (mcs s')).
+  (* fn has been entered exactly once so far *)
+  assert (Hent : mm_entries m + length (filter (mm_entered (mm_prev m) (mm_returning e))
+                                         (combine (seq 0 (length (map mc1 (mcs s')))) (map mc1 (mcs s')))) = 1).
+  { rewrite HE, HP. destruct (started s) eqn:Es; cbn [b2n].
+    - rewrite (filter_combine_seq _ (fun _ => false)).
+      + replace (length (filter (fun _ : N => false) (map mc1 (mcs s')))) with 0; [reflexivity|].
+        symmetry. generalize (map mc1 (mcs s')) as l. induction l; cbn; auto.
+      + intros j c Hj. cbn [Nat.add]. unfold mm_entered. cbn [fst snd].
+        destruct (N.eqb_spec c 6) as [->|Hc]; [|reflexivity]. cbn [andb].
+        apply nth_error_map_inv in Hj as (p & Gp & Ep). symmetry in Ep. apply mc1_infn in Ep. subst p.
+        pose proof (F3 eq_refl _ Gp) as G0.
+        erewrite (nth_error_nth (map mc1 (mcs s)) j 0%N) by (apply map_nth_error; exact G0). cbn [mc1 mcodep fst N.eqb Pos.eqb negb orb].
+        destruct (mdec_shape _ _ _ D) as [->|[(i & k & ->)|(n & w & ->)]]; cbn [mm_returning]; try reflexivity.
+        destruct (F6 _ _ eq_refl) as (o & _ & Go). apply Nat.eqb_neq. intros <-. congruence.
+    - rewrite (filter_combine_seq _ (fun c => N.eqb c 6)).
+      + rewrite cnt_infn_codes. destruct (F4 eq_refl) as [j Gj].
+        pose proof (nth_error_cnt_pos m_in_fn _ _ _ Gj eq_refl) as Hpos.
+        assert (Hle : cnt m_in_fn (mcs s') <= 1).
+        { pose proof HI' as HIc. minv_names HIc.
+          pose proof (cnt_le m_in_fn is_first (mcs s')) as Hc. assert (Himp : forall x, m_in_fn x = true -> is_first x = true) by (intros []; auto).
+          specialize (Hc Himp). pose proof (uniq_cnt_le1 is_first (mcs s') M2). lia. }
+        lia.
+      + intros j c Hj. cbn [Nat.add]. unfold mm_entered. cbn [fst snd].
+        destruct (N.eqb_spec (nth j (map mc1 (mcs s)) 0%N) 6) as [H6|H6]; [|cbn [negb orb]; now rewrite andb_true_r].
+        exfalso. apply nth_prev in H6. pose proof HI as HIc. minv_names HIc. specialize (M1 _ _ H6 eq_refl). congruence. }
+  rewrite Hent. cbn [Nat.ltb Nat.leb Nat.eqb orb]. rewrite andb_false_r.
+  (* every returned caller has the result of that call *)
+  assert (H7 : existsb (mm_bad (mm_ret1 m e)) (filter (fun p : N * N => is_ret_code (fst p)) (map mcodep (mcs s'))) = false).
+  { apply existsb_filter_false. intros p Hp Hrc. apply in_map_iff in Hp as (q & <- & Hq). apply In_nth_error in Hq as [f Gf].
+    destruct (mcodep_ret _ Hrc) as (o & Hq & Ec).
+    assert (exists f0, nth_error (mcs s') f0 = Some (MRetF o)) as [f0 G0].
+    { destruct Hq as [->| ->]; [eauto|]. pose proof HI' as HIc. minv_names HIc. exact (M7 _ _ Gf). }
+    unfold mm_bad. destruct (mm_ret1 m e) as [[c v]|]; cbn [retrel] in HR1.
+    - destruct HR1 as (f1 & o1 & G1 & E1). rewrite (retf_unique _ _ _ _ _ HI' G1 G0) in E1. rewrite Ec, E1. cbn [fst snd].
+      now rewrite !N.eqb_refl.
+    - exfalso. eapply HR1; eauto. }
+  rewrite H7.
+  assert (H8 : existsb (fun p : N * N => N.eqb (fst p) 11) (map mcodep (mcs s')) = false).
+  { apply existsb_false_intro. intros p Hp. apply in_map_iff in Hp as (q & <- & _). destruct q as [| |o|o|o| |o]; try reflexivity; destruct o; reflexivity. }
+  rewrite H8. cbn [app]. eexists. split; [reflexivity|].
+  unfold RM. cbn [mm_prev mm_entries mm_ret]. rewrite Hst'. auto.
+Qed.
+
+Theorem memo_satisfies_monitors_gen evs : forall s m i rep, RM m s ->
+  monitor mon_memo i m rep evs (run_obs mhstep s evs) = [].
+Proof.
+  induction evs as [|e evs IH]; intros s m i rep Hm; [reflexivity|].
+  cbn [run_obs]. destruct (mhstep s e) as [[s' o]|] eqn:E; [|reflexivity].
+  destruct (mon_step_memo m s e s' o Hm E) as (m' & Em & Hm').
+  cbn [monitor]. rewrite Em. cbn [filter map app]. apply IH; assumption.
+Qed.
+
+Lemma RM_init : RM mmonit minit.
+Proof.
+  split; [apply minit_inv|]. split; [reflexivity|]. split; [reflexivity|]. intros f o H. destruct f; discriminate.
+Qed.
+
+(* the memo monitors of C16 report nothing on the model's own observations, for every event list *)
+Theorem memo_satisfies_monitors evs : monitor mon_memo 0 mmonit [] evs (run_obs mhstep minit evs) = [].
+Proof. apply memo_satisfies_monitors_gen. apply RM_init. Qed.
+
+Lemma replay_own_memo evs : forall s i,
+  length (run_obs mhstep s evs) = length evs -> replay mhstep i s evs (run_obs mhstep s evs) = [].
+Proof.
+  induction evs as [|e evs IH]; intros s i Hl; [reflexivity|]. cbn [run_obs replay] in *.
+  destruct (mhstep s e) as [[s' o]|]; [|discriminate Hl]. cbn [length] in Hl.
+  assert (E : forall l, list_eqb l l = true) by (induction l as [|x t IHl]; [reflexivity | cbn [list_eqb]; now rewrite N.eqb_refl, IHl]).
+  rewrite E. apply IH. lia.
+Qed.
+
+Theorem memo_run_check_clean cfg evs :
+  length (run_obs mhstep minit evs) = length evs -> run_check_memo cfg evs (run_obs mhstep minit evs) = [].
+Proof.
+  intros Hl. unfold run_check_memo, run_check. rewrite (replay_own_memo evs minit 0 Hl), memo_satisfies_monitors. reflexivity.
+Qed.
